@@ -542,6 +542,10 @@ class HttpParser(abc.ABC, Generic[_MsgT]):
                         self._should_close = msg.should_close
                 else:
                     self._tail = data[start_pos:]
+                    if self._should_close and self._tail != b"\r":
+                        # Same verdict as for a complete line (above), however
+                        # the bytes are split into reads.
+                        raise BadHttpMessage("Data after `Connection: close`")
                     # A bare LF here means CRLF was required:
                     # reject instead of buffering, else a following request's
                     # bytes get appended to this line and leak in the error.
